@@ -741,7 +741,7 @@ namespace avel {
         auto ret = _mm512_getmant_pd(decay(v), _MM_MANT_NORM_p5_1, _MM_MANT_SIGN_src);
         // Note: Returns -1 or 1 for -infinity and +infinity respectively
 
-        ret = _mm512_maskz_mov_pd(is_non_zero, ret);
+        ret = _mm512_mask_mov_pd(decay(v), is_non_zero, ret);
         ret = _mm512_mask_blend_pd(is_infinity, ret, decay(v));
         return vec8x64f{ret};
 
@@ -758,7 +758,7 @@ namespace avel {
         auto ret = _mm512_getmant_pd(decay(v), _MM_MANT_NORM_p5_1, _MM_MANT_SIGN_src);
         // Note: Returns -1 or 1 for -infinity and +infinity respectively
 
-        ret = _mm512_maskz_mov_pd(is_non_zero, ret);
+        ret = _mm512_mask_mov_pd(decay(v), is_non_zero, ret);
         ret = _mm512_mask_blend_pd(is_infinity, ret, decay(v));
         return vec8x64f{ret};
 
